@@ -37,6 +37,7 @@ type Engine struct {
 	keyHints   map[string]Sort
 	globalInit map[*ssa.Global]bool
 	esc        *escOracle
+	overlaySrc map[string][]byte
 }
 
 func (e *Engine) stringID(s string) int {
@@ -194,6 +195,18 @@ func newEngine(repo, verif string) *Engine {
 func (e *Engine) load(patterns []string) error {
 	cfg := &packages.Config{Mode: packages.LoadAllSyntax, Dir: e.repo, BuildFlags: []string{"-tags=verif"},
 		Env: append(os.Environ(), "GOFLAGS=-mod=mod", "GOPROXY=off", "GOTOOLCHAIN=local", "PATH=/opt/veriftools/go1.26.8/bin:"+os.Getenv("PATH"))}
+	// grammar actions of the schema parser, extracted from grammar.go on every run (yyextract.go)
+	for _, p := range patterns {
+		if strings.HasSuffix(p, "/internal/lang/parser") {
+			path, src, xerr := extractYaccActions(filepath.Join(e.repo, "internal/lang/parser"))
+			if xerr != nil {
+				e.loadErrs = append(e.loadErrs, "yacc action extraction: "+xerr.Error())
+				break
+			}
+			cfg.Overlay = map[string][]byte{path: src}
+			e.overlaySrc = map[string][]byte{path: src}
+		}
+	}
 	pkgs, err := packages.Load(cfg, patterns...)
 	if err != nil {
 		return err
